@@ -186,6 +186,24 @@ def _forms():
     A("np.fill_diagonal(x,y)", lambda x, y, o: np.fill_diagonal(x, y), needs="x-2d", inplace=True, scalar_literal_ok=True, first_must_be_quantity=True)
     A("np.copyto(x,y,where=partial)", lambda x, y, o: np.copyto(x, y, where=(np.arange(x.size).reshape(x.shape) % 2 == 0)), needs="x-array", inplace=True, scalar_literal_ok=True, first_must_be_quantity=True)
     A("np.searchsorted(x,y)", lambda x, y, o: np.searchsorted(np.sort(x), y), needs="x-1d", scalar_literal_ok=True, first_must_be_quantity=True)
+    # the same functions with their arguments spelled the other way (positional <-> keyword): handlers that pick arguments apart by hand
+    A("np.copyto(x,y,'same_kind',partial)", lambda x, y, o: np.copyto(x, y, "same_kind", (np.arange(x.size).reshape(x.shape) % 2 == 0)), needs="x-array", inplace=True, scalar_literal_ok=True, first_must_be_quantity=True)
+    A("np.copyto(x,y,casting=,where=)", lambda x, y, o: np.copyto(x, y, casting="same_kind", where=(np.arange(x.size).reshape(x.shape) % 2 == 1)), needs="x-array", inplace=True, scalar_literal_ok=True, first_must_be_quantity=True)
+    A("np.clip(x,min=y,max=y)", lambda x, y, o: np.clip(x, min=y, max=y), scalar_literal_ok=True, first_must_be_quantity=True)
+    A("np.clip(x,a_min=y,a_max=None)", lambda x, y, o: np.clip(x, a_min=y, a_max=None), scalar_literal_ok=True, first_must_be_quantity=True)
+    A("np.put(x,ind=,v=y)", lambda x, y, o: np.put(x, ind=[0], v=y), needs="x-array", inplace=True, scalar_literal_ok=True, first_must_be_quantity=True)
+    A("np.place(x,mask=,vals=y)", lambda x, y, o: np.place(x, mask=np.ones(x.shape, bool), vals=y), needs="x-array", inplace=True, scalar_literal_ok=True, first_must_be_quantity=True)
+    A("np.putmask(x,mask=,values=y)", lambda x, y, o: np.putmask(x, mask=np.ones(x.shape, bool), values=y), needs="x-array", inplace=True, scalar_literal_ok=True, first_must_be_quantity=True)
+    A("np.insert(x,obj=0,values=y)", lambda x, y, o: np.insert(x, obj=0, values=y), needs="x-1d", scalar_literal_ok=True, first_must_be_quantity=True)
+    A("np.searchsorted(a=x,v=y)", lambda x, y, o: np.searchsorted(a=np.sort(x), v=y), needs="x-1d", scalar_literal_ok=True, first_must_be_quantity=True)
+    A("np.append(arr=x,values=y)", lambda x, y, o: np.append(arr=x, values=y))
+    A("np.isin(element=x,test_elements=y)", lambda x, y, o: np.isin(element=x, test_elements=y))
+    A("np.linspace(start=x,stop=y)", lambda x, y, o: np.linspace(start=x, stop=y, num=5), needs="same-shape")
+    A("np.isclose(a=x,b=y)", lambda x, y, o: np.isclose(a=x, b=y), scalar_literal_ok=True)
+    A("np.allclose(a=x,b=y)", lambda x, y, o: np.allclose(a=x, b=y), scalar_literal_ok=True)
+    A("np.intersect1d(ar1=x,ar2=y)", lambda x, y, o: np.intersect1d(ar1=x, ar2=y), needs="1d")
+    A("np.union1d(ar1=x,ar2=y)", lambda x, y, o: np.union1d(ar1=x, ar2=y), needs="1d")
+    A("np.fill_diagonal(x,val=y)", lambda x, y, o: np.fill_diagonal(x, val=y), needs="x-2d", inplace=True, scalar_literal_ok=True, first_must_be_quantity=True)
     A("np.isin(x,y)", lambda x, y, o: np.isin(x, y))
     A("np.intersect1d(x,y)", lambda x, y, o: np.intersect1d(x, y), needs="1d")
     A("np.union1d(x,y)", lambda x, y, o: np.union1d(x, y), needs="1d")
